@@ -110,3 +110,58 @@ impl IdealGas for MockIdealGas {
         "mock constant-cp ideal gas".into()
     }
 }
+
+thread_local! {
+    pub static TLOG: RefCell<Vec<f64>> = RefCell::new(Vec::new());
+}
+pub fn tlog_start() {
+    TLOG.with(|l| l.borrow_mut().clear());
+}
+/// temperatures at which the ideal-gas model was evaluated, consecutive repeats merged
+pub fn tlog_take() -> Vec<f64> {
+    let v = TLOG.with(|l| l.borrow().clone());
+    let mut out: Vec<f64> = Vec::new();
+    for t in v {
+        if out.last().map_or(true, |l| l.to_bits() != t.to_bits()) {
+            out.push(t);
+        }
+    }
+    out
+}
+
+/// ideal gas with ln(lambda^3) = -(k-1) ln T + 3 - (A w / T*^2) ln cosh((T - T*)/w), i.e. (w -> 0)
+///   u/R = (k-1) T + sign(T - T*) A (T/T*)^2,   c_v/R = (k-1) + sign(T - T*) 2 A T / T*^2 :
+/// a step of height 2A in the caloric properties at T*.  Logs every temperature it is evaluated at.
+#[derive(Clone, Debug)]
+pub struct StepIdealGas {
+    pub k: f64,
+    pub amp: f64,
+    pub tstar: f64,
+    pub w: f64,
+}
+
+impl Components for StepIdealGas {
+    fn components(&self) -> usize {
+        1
+    }
+    fn subset(&self, _: &[usize]) -> Self {
+        self.clone()
+    }
+}
+
+impl IdealGas for StepIdealGas {
+    fn ln_lambda3<D: DualNum<f64> + Copy>(&self, temperature: D) -> Array1<D> {
+        TLOG.with(|l| l.borrow_mut().push(temperature.re()));
+        let mut v = -temperature.ln() * (self.k - 1.0) + 3.0;
+        if self.amp != 0.0 {
+            let x = (temperature - self.tstar) / self.w;
+            let ax = if x.re() < 0.0 { -x } else { x };
+            let lncosh = ax + ((-ax * 2.0).exp() + 1.0).ln() - std::f64::consts::LN_2;
+            v -= lncosh * (self.amp * self.w / (self.tstar * self.tstar));
+        }
+        Array1::from_elem(1, v)
+    }
+    fn ideal_gas_model(&self) -> String {
+        "mock ideal gas with a caloric step".into()
+    }
+}
